@@ -10,12 +10,14 @@ import (
 	"bytes"
 	"context"
 	"crypto/sha1"
+	"encoding/base64"
 	"encoding/json"
 	"errors"
 	"fmt"
 	"go/ast"
 	"go/token"
 	"runtime"
+	"sort"
 	"strconv"
 	"strings"
 	"sync"
@@ -24,6 +26,7 @@ import (
 	"github.com/gotd/td/crypto"
 	"github.com/gotd/td/mtproto"
 	"github.com/gotd/td/session"
+	"github.com/gotd/td/session/tdesktop"
 	"github.com/gotd/td/telegram"
 	"github.com/gotd/td/tg"
 
@@ -45,54 +48,8 @@ func leanStrList(xs []string) string {
 	return "[" + strings.Join(q, ", ") + "]"
 }
 
-// ifsAndAssigns lists, in source order, the conditions of all `if` statements (prefixed "if ") and all
-// assignments / calls on c.session, c.storage (prefixed "do ") of a function.
-func summary(f *hc.Facts, fd *ast.FuncDecl) []string { return normalise(summaryRaw(f, fd)) }
-
-func normalise(xs []string) []string {
-	for i, x := range xs {
-		xs[i] = strings.Join(strings.Fields(x), " ")
-	}
-	return xs
-}
-
-func summaryRaw(f *hc.Facts, fd *ast.FuncDecl) []string {
-	var out []string
-	ast.Inspect(fd.Body, func(n ast.Node) bool {
-		switch v := n.(type) {
-		case *ast.IfStmt:
-			out = append(out, "if "+f.Src(v.Cond))
-		case *ast.AssignStmt:
-			out = append(out, "do "+f.Src(v))
-		case *ast.ExprStmt:
-			if c, ok := v.X.(*ast.CallExpr); ok {
-				s := f.Src(c)
-				if strings.HasPrefix(s, "c.session.") || strings.HasPrefix(s, "c.storeDCSess") || strings.HasPrefix(s, "copy(") {
-					out = append(out, "do "+s)
-				}
-			}
-		case *ast.ReturnStmt:
-			out = append(out, "return "+strings.TrimPrefix(f.Src(v), "return "))
-		}
-		return true
-	})
-	return out
-}
-
 func facts(f *hc.Facts) {
-	for _, fn := range []struct{ lean, name string }{
-		{"onSessionSrc", "Client.onSession"}, {"onCDNSessionSrc", "Client.onCDNSession"},
-		{"saveSessionSrc", "Client.saveSession"}, {"restoreSrc", "Client.restoreConnection"},
-		{"dcSessionSrc", "dcSessionFromMTProto"},
-	} {
-		fd := f.FuncDecl("telegram", fn.name)
-		if fd == nil || fd.Body == nil {
-			f.Missing(fn.lean, "telegram."+fn.name+" not found")
-			continue
-		}
-		f.Raw(fmt.Sprintf("/-- conditions, assignments, session/storage calls and returns of telegram.%s in source order -/", fn.name))
-		f.Raw("def " + fn.lean + " : List String := " + leanStrList(summary(f, fd)))
-	}
+	structuredFacts(f)
 	// crypto.Key.ID: copy(id[:], raw[LOW:]) into a [LEN]byte
 	fd := f.FuncDecl("crypto", "Key.ID")
 	off, ln := -1, -1
@@ -120,6 +77,40 @@ func facts(f *hc.Facts) {
 		f.Nat("keyIDOffset", off, "crypto.Key.ID: raw[N:]")
 		f.Nat("keyIDLen", ln, "crypto.Key.ID: var id [N]byte")
 	}
+	// migration: migrateToDc -> c.session.Migrate(param); SyncSession.Migrate sets DC to the parameter and zeroes key and salt
+	migOK := false
+	if fd := f.FuncDecl("telegram", "Client.migrateToDc"); fd != nil && fd.Body != nil && len(fd.Type.Params.List) == 2 {
+		param := fd.Type.Params.List[1].Names[0].Name
+		ast.Inspect(fd.Body, func(n ast.Node) bool {
+			if c, ok := n.(*ast.CallExpr); ok && f.Src(c.Fun) == "c.session.Migrate" && len(c.Args) == 1 && f.Src(c.Args[0]) == param {
+				migOK = true
+			}
+			return true
+		})
+	}
+	f.Bool("migrateToDcMigratesSession", migOK, "telegram.Client.migrateToDc calls c.session.Migrate(<its dc parameter>)")
+	var mig []string
+	if fd := f.FuncDecl("pool", "SyncSession.Migrate"); fd != nil && fd.Body != nil && len(fd.Type.Params.List) == 1 {
+		param := fd.Type.Params.List[0].Names[0].Name
+		ast.Inspect(fd.Body, func(n ast.Node) bool {
+			if a, ok := n.(*ast.AssignStmt); ok && len(a.Lhs) == 1 && len(a.Rhs) == 1 {
+				if sel, ok := a.Lhs[0].(*ast.SelectorExpr); ok {
+					rhs := f.Src(a.Rhs[0])
+					switch {
+					case rhs == param:
+						rhs = "param"
+					case rhs == "0" || strings.HasSuffix(rhs, "{}"):
+						rhs = "zero"
+					}
+					mig = append(mig, sel.Sel.Name+"="+rhs)
+				}
+			}
+			return true
+		})
+	}
+	sort.Strings(mig)
+	f.Raw("/-- assignments of pool.SyncSession.Migrate (field=param|zero|<source>), sorted -/")
+	f.Raw("def migrateAssigns : List String := " + leanStrList(mig))
 	// the handlers: clientHandler.OnSession -> onSession, cdnClientHandler.OnSession -> onCDNSession
 	for _, h := range []struct{ lean, name string }{{"regularHandlerCalls", "clientHandler.OnSession"}, {"cdnHandlerCalls", "cdnClientHandler.OnSession"}} {
 		fd := f.FuncDecl("telegram", h.name)
@@ -156,7 +147,9 @@ type faultyStorage struct {
 	saveFail bool
 	garbage  []byte // when set, LoadSession returns these bytes
 	jitter   bool   // concurrent runs: yield / sleep around storage calls to shake the interleaving
-	perCall  func() (loadFail, saveFail bool)
+	onLoad   func() // scripted runs: called on entry of LoadSession (before the load)
+	onStore  func() // scripted runs: called on entry of StoreSession (before the save)
+	afterOp  func() // scripted runs: called when the load / save has been performed (or failed)
 }
 
 func (s *faultyStorage) shake() {
@@ -176,6 +169,12 @@ func (s *faultyStorage) shake() {
 func (s *faultyStorage) LoadSession(ctx context.Context) ([]byte, error) {
 	s.shake()
 	defer s.shake()
+	if s.onLoad != nil {
+		s.onLoad()
+	}
+	if s.afterOp != nil {
+		defer s.afterOp()
+	}
 	if s.loadFail {
 		return nil, errLoadInjected
 	}
@@ -188,6 +187,12 @@ func (s *faultyStorage) LoadSession(ctx context.Context) ([]byte, error) {
 func (s *faultyStorage) StoreSession(ctx context.Context, data []byte) error {
 	s.shake()
 	defer s.shake()
+	if s.onStore != nil {
+		s.onStore()
+	}
+	if s.afterOp != nil {
+		defer s.afterOp()
+	}
 	if s.saveFail {
 		return errSaveInjected
 	}
@@ -259,6 +264,7 @@ func showClient(v *telegram.VerifC30Client, st *faultyStorage) string {
 // generators
 
 type notif struct {
+	mig     bool // not a notification: c.session.Migrate(dc)
 	cdn     bool
 	dc      int
 	key     crypto.AuthKey
@@ -279,6 +285,9 @@ func (n notif) wire() string {
 	k := "r"
 	if n.cdn {
 		k = "c"
+	}
+	if n.mig {
+		k = "m"
 	}
 	return fmt.Sprintf("%s,%d,%s,%s,%s,%s,%d,%c", k, n.dc, hc.Hex(n.key.Value[:]), hc.Hex(n.key.ID[:]),
 		hc.Hex(n.perm.Value[:]), hc.Hex(n.perm.ID[:]), n.salt, n.fault)
@@ -336,9 +345,39 @@ func genHistory(r *hc.RNG, c *hc.Ctx, primary int, pfs bool) []notif {
 		if r.Chance(15) {
 			x.fault = hc.Pick[byte](r, 'l', 's')
 		}
+		if r.Chance(8) { // the client is told to migrate (USER_MIGRATE / MigrateTo)
+			x = notif{mig: true, dc: 1 + r.Intn(5), fault: 'n'}
+			primary = x.dc
+		}
 		out = append(out, x)
 	}
 	return out
+}
+
+// invoke delivers one agent to the real client.
+func invoke(v *telegram.VerifC30Client, n notif) error {
+	if n.mig {
+		v.VerifC30Migrate(n.dc)
+		return nil
+	}
+	cfg := tg.Config{ThisDC: n.dc}
+	ms := mtproto.Session{Key: n.key, Salt: n.salt, PermKey: n.perm}
+	if n.cdn {
+		return v.VerifC30OnCDNSession(cfg, ms)
+	}
+	return v.VerifC30OnSession(cfg, ms)
+}
+
+func resClass(err error) string {
+	switch {
+	case err == nil:
+		return "ok"
+	case errors.Is(err, errLoadInjected):
+		return "err-load"
+	case errors.Is(err, errSaveInjected):
+		return "err-save"
+	}
+	return "err-other:" + err.Error()
 }
 
 func sha1ID(v []byte) []byte {
@@ -357,10 +396,12 @@ func fit(n int, b []byte) []byte {
 func run(c *hc.Ctx) error {
 	r := c.Rng
 	c.Res.Rule = "histories: primary DC 0..5, PFS on/off, storage present / absent / pre-populated / failing on load or save per notification, " +
-		"0..14 notifications mixing the primary DC, other DCs, DC id 0, CDN connections and CDN DC ids on the regular handler, keys drawn from a pool of 5 " +
-		"(5% with a foreign key id, 5% sparse), permanent keys incl. zero-value/non-zero-id; non-trivial = history with ≥ 2 notifications of which at least one is " +
-		"regular from a non-primary DC or CDN and at least one is accepted. restore: stored sessions mutated (key byte, key id byte, key/id length, DC 0, " +
-		"bad JSON, wrong version, empty); all non-trivial. distinct = distinct input line"
+		"0..14 agents mixing notifications of the primary DC, other DCs, DC id 0, CDN connections, CDN DC ids on the regular handler and migrations (c.session.Migrate), keys drawn from a pool of 5 " +
+		"(5% with a foreign key id, 5% sparse), permanent keys incl. zero-value/non-zero-id; non-trivial = history with >= 2 agents of which at least one is " +
+		"foreign (non-primary DC, CDN, migration) and at least one is accepted. restore: stored sessions mutated (key byte, key id byte, key/id length, empty / null / absent JSON fields, DC 0, " +
+		"bad JSON, wrong version, empty) and the outputs of the Telethon and Telegram-Desktop converters; all non-trivial. scripted interleavings: 1..3 top-level agents, each regular " +
+		"notification running further agents (notifications, migrations; depth <= 2) from inside its storage load and its storage save; non-trivial = >= 2 agents. " +
+		"racing: 2..3 goroutines (notifications, 20% migrations). distinct = distinct input line"
 	c.PartialNote("concurrent notifications: the interleaving is the Go scheduler's (shaken by yields/sleeps in the storage), not enumerated; the model must admit the observed final state (reachability over all interleavings of the atomic steps), intermediate states are not observed")
 	c.PartialNote("session.Loader's JSON encoding is exercised (storage content is read back through it) but not modelled")
 
@@ -410,7 +451,7 @@ func run(c *hc.Ctx) error {
 			}
 			line := fmt.Sprintf("run %s %d %s %s", hs, primary, is, strings.Join(ws, " "))
 			var impl []string
-			foreignSeen, acceptedSeen := false, false
+			foreignSeen, acceptedSeen, migrated := false, false, false
 			// eligible[j]: notification j could legitimately be what the storage holds
 			type cand struct {
 				n        notif
@@ -423,8 +464,6 @@ func run(c *hc.Ctx) error {
 				if st != nil {
 					st.loadFail, st.saveFail = n.fault == 'l', n.fault == 's'
 				}
-				cfg := tg.Config{ThisDC: n.dc}
-				ms := mtproto.Session{ID: int64(r.U64()), Key: n.key, Salt: n.salt, PermKey: n.perm}
 				var err error
 				func() {
 					defer func() {
@@ -433,32 +472,23 @@ func run(c *hc.Ctx) error {
 							c.Fail("onsession-panic", line, fmt.Sprintf("notification %d: %v", j, p))
 						}
 					}()
-					if n.cdn {
-						err = v.VerifC30OnCDNSession(cfg, ms)
-					} else {
-						err = v.VerifC30OnSession(cfg, ms)
-					}
+					err = invoke(v, n)
 				}()
 				if st != nil {
 					st.loadFail, st.saveFail = false, false
 				}
-				res := "ok"
-				switch {
-				case err == nil:
-				case errors.Is(err, errLoadInjected):
-					res = "err-load"
-				case errors.Is(err, errSaveInjected):
-					res = "err-save"
-				default:
-					res = "err-other:" + err.Error()
-				}
+				res := resClass(err)
 				state := showClient(v, st)
 				impl = append(impl, res+"|"+state)
 				// ---- monitor (model-free)
-				elig := !n.cdn && (n.dc == before.DC || before.DC == 0 || n.dc == 0)
+				elig := !n.cdn && !n.mig && (n.dc == before.DC || before.DC == 0 || n.dc == 0)
 				cands = append(cands, cand{n, elig})
 				if n.cdn || !elig {
 					foreignSeen = true
+				}
+				if n.mig {
+					migrated = true
+					c.Count("hist.with-migration")
 				}
 				var now *session.Data
 				if st != nil {
@@ -468,7 +498,7 @@ func run(c *hc.Ctx) error {
 				if cur != prevStored {
 					acceptedSeen = true
 					if n.cdn || !elig {
-						c.Fail("foreign-notification-changed-storage", line, fmt.Sprintf("notification %d (cdn=%v dc=%d, primary DC %d) changed the stored session to %s", j, n.cdn, n.dc, before.DC, cur))
+						c.Fail("foreign-notification-changed-storage", line, fmt.Sprintf("notification %d (cdn=%v migrate=%v dc=%d, primary DC %d) changed the stored session to %s", j, n.cdn, n.mig, n.dc, before.DC, cur))
 					}
 				}
 				prevStored = cur
@@ -483,7 +513,7 @@ func run(c *hc.Ctx) error {
 					if !ok {
 						c.Fail("stored-not-one-confirmed-session", line, fmt.Sprintf("after notification %d the storage holds %s, which is not the DC+key+salt of any single eligible notification", j, cur))
 					}
-					if primary != 0 && (init == nil || showStored(init) != cur) {
+					if primary != 0 && !migrated && (init == nil || showStored(init) != cur) {
 						allNonZero := true
 						for _, cd := range cands {
 							if cd.n.dc == 0 {
@@ -520,7 +550,8 @@ func run(c *hc.Ctx) error {
 			st := &faultyStorage{}
 			hasStorage := !r.Chance(4)
 			load := ""
-			mut := hc.Pick(r, "none", "none", "key-bit", "id-bit", "key-short", "key-long", "id-short", "id-long", "key-empty", "id-empty", "zero-key", "garbage", "version", "empty", "load-fail")
+			mut := hc.Pick(r, "none", "none", "key-bit", "id-bit", "key-short", "key-long", "id-short", "id-long", "key-empty", "id-empty", "zero-key", "garbage", "version", "empty", "load-fail",
+				"telethon4", "telethon6", "tdesktop", "json-absent-id", "json-absent-key", "json-null-id")
 			switch mut {
 			case "key-bit":
 				d.AuthKey[r.Intn(256)] ^= byte(1 << r.Intn(8))
@@ -540,6 +571,41 @@ func run(c *hc.Ctx) error {
 				d.AuthKeyID = nil
 			case "zero-key":
 				d.AuthKey, d.AuthKeyID = make([]byte, 256), make([]byte, 8)
+			case "telethon4", "telethon6":
+				// the Telethon string-session converter's output as restore input
+				ip := r.Bytes(4)
+				if mut == "telethon6" {
+					ip = r.Bytes(16)
+				}
+				raw := append([]byte{byte(1 + r.Intn(5))}, ip...)
+				raw = append(raw, byte(r.Intn(256)), byte(r.Intn(256)))
+				raw = append(raw, k.Value[:]...)
+				td, err := session.TelethonSession("1" + base64.URLEncoding.EncodeToString(raw))
+				if err != nil {
+					return fmt.Errorf("TelethonSession: %w", err)
+				}
+				if td.DC != int(raw[0]) || !bytes.Equal(td.AuthKey, k.Value[:]) || !bytes.Equal(td.AuthKeyID, sha1ID(k.Value[:])) {
+					c.Fail("converter-does-not-pair-dc-with-its-key", "telethon "+hc.Hex(raw), fmt.Sprintf("TelethonSession returned DC %d with key id %s", td.DC, hc.Hex(td.AuthKeyID)))
+				}
+				d = td
+			case "tdesktop":
+				// the Telegram Desktop converter's output: the main DC's key out of a per-DC key map
+				main := 1 + r.Intn(5)
+				acc := tdesktop.Account{Authorization: tdesktop.MTPAuthorization{MainDC: main, Keys: map[int]crypto.Key{}}}
+				for dc := 1; dc <= 5; dc++ {
+					if dc == main || r.Bool() {
+						acc.Authorization.Keys[dc] = genKey(r).Value
+					}
+				}
+				td, err := session.TDesktopSession(acc)
+				if err != nil {
+					return fmt.Errorf("TDesktopSession: %w", err)
+				}
+				mk := acc.Authorization.Keys[main]
+				if td.DC != main || !bytes.Equal(td.AuthKey, mk[:]) || !bytes.Equal(td.AuthKeyID, sha1ID(mk[:])) {
+					c.Fail("converter-does-not-pair-dc-with-its-key", fmt.Sprintf("tdesktop main=%d", main), fmt.Sprintf("TDesktopSession returned DC %d with key id %s", td.DC, hc.Hex(td.AuthKeyID)))
+				}
+				d = td
 			}
 			c.Count("restore.mut=" + mut)
 			switch mut {
@@ -555,6 +621,23 @@ func run(c *hc.Ctx) error {
 			case "load-fail":
 				st.loadFail = true
 				load = "err"
+			case "json-absent-id", "json-absent-key", "json-null-id":
+				// hand-edited / partially written file: the field is missing or null
+				m := map[string]any{"DC": d.DC, "Addr": d.Addr, "Salt": d.Salt, "AuthKey": d.AuthKey, "AuthKeyID": d.AuthKeyID}
+				switch mut {
+				case "json-absent-id":
+					delete(m, "AuthKeyID")
+					d.AuthKeyID = nil
+				case "json-null-id":
+					m["AuthKeyID"] = nil
+					d.AuthKeyID = nil
+				case "json-absent-key":
+					delete(m, "AuthKey")
+					d.AuthKey = nil
+				}
+				b, _ := json.Marshal(map[string]any{"Version": 1, "Data": m})
+				st.garbage = b
+				load = fmt.Sprintf("%d,%s,%s,%d,%s", d.DC, hc.Hex(d.AuthKey), hc.Hex(d.AuthKeyID), d.Salt, hc.Hex([]byte(d.Addr)))
 			default:
 				if err := (&session.Loader{Storage: &st.mem}).Save(context.Background(), d); err != nil {
 					return err
@@ -597,6 +680,9 @@ func run(c *hc.Ctx) error {
 			c.Eval(line, true)
 			// ---- monitor (model-free, Go's own SHA-1)
 			if hasStorage && strings.Contains(load, ",") {
+				if (mut == "telethon4" || mut == "telethon6" || mut == "tdesktop") && err != nil {
+					c.Fail("restore-refused-converted-session", line, mut+": "+err.Error())
+				}
 				match := bytes.Equal(sha1ID(fit(256, d.AuthKey)), fit(8, d.AuthKeyID))
 				if !match && err == nil {
 					c.Fail("restore-accepted-mismatched-key", line, "stored key id is not the SHA-1 id of the stored key, but restoreConnection returned nil and installed "+showKeySess(s.DC, s.AuthKey, s.Salt))
@@ -653,7 +739,202 @@ func run(c *hc.Ctx) error {
 			}
 		}
 	}
+	if err := runScripted(c); err != nil {
+		return err
+	}
 	return runConcurrent(c)
+}
+
+// ---------------------------------------------------------------------------------------------
+// scripted interleavings: exact trace conformance, deterministic.
+//
+// The storage is the harness's, so the harness can run other agents (whole notifications, migrations)
+// from INSIDE a notification's LoadSession / StoreSession call, i.e. between its c.session.Store and
+// its load, and between its load and its save — recursively.  The real interleaving of atomic steps is
+// therefore known exactly; it is replayed action by action through the model (`script`), and the
+// final state and all results must be equal.
+
+type agent struct {
+	n       notif
+	atLoad  []*agent // run on entry of this agent's LoadSession
+	atStore []*agent // run on entry of this agent's StoreSession
+}
+
+func genAgent(r *hc.RNG, primary *int, pool []crypto.AuthKey, depth int) *agent {
+	a := &agent{}
+	x := &a.n
+	switch r.Intn(10) {
+	case 0, 1, 2, 3, 4:
+		x.dc = *primary
+	case 5, 6:
+		x.dc = 1 + r.Intn(5)
+	case 7:
+		x.dc = 0
+	case 8:
+		x.cdn, x.dc = true, hc.Pick(r, 201, 203)
+	default:
+		*x = notif{mig: true, dc: 1 + r.Intn(5), fault: 'n'}
+		*primary = x.dc
+		return a
+	}
+	x.key = hc.Pick(r, pool...)
+	if r.Chance(35) {
+		x.perm = hc.Pick(r, pool...)
+	}
+	x.salt = int64(r.U64())
+	x.fault = 'n'
+	if r.Chance(10) {
+		x.fault = hc.Pick[byte](r, 'l', 's')
+	}
+	if depth < 2 && !x.cdn {
+		for _, list := range []*[]*agent{&a.atLoad, &a.atStore} {
+			if r.Chance(55 - 25*depth) {
+				for k := hc.Pick(r, 1, 1, 2); k > 0; k-- {
+					*list = append(*list, genAgent(r, primary, pool, depth+1))
+				}
+			}
+		}
+	}
+	return a
+}
+
+func runScripted(c *hc.Ctx) error {
+	r := c.Rng
+	n := c.N(1500, 40000)
+	var lines, impls []string
+	for i := 0; i < n; i++ {
+		primary := hc.Pick(r, 0, 2, 2, 3, 5)
+		cur := primary
+		pool := []crypto.AuthKey{genKey(r), genKey(r), genKey(r)}
+		st := &faultyStorage{}
+		hasStorage := !r.Chance(4)
+		var init *session.Data
+		if hasStorage && r.Chance(25) {
+			k := genKey(r)
+			init = &session.Data{DC: primary, Addr: "149.154.167.50:443", AuthKey: append([]byte{}, k.Value[:]...),
+				AuthKeyID: append([]byte{}, k.ID[:]...), Salt: int64(r.U64())}
+			if err := (&session.Loader{Storage: &st.mem}).Save(context.Background(), init); err != nil {
+				return err
+			}
+		}
+		var tops []*agent
+		for k := hc.Pick(r, 1, 1, 2, 3); k > 0; k-- {
+			tops = append(tops, genAgent(r, &cur, pool, 0))
+		}
+		var storage session.Storage
+		if hasStorage {
+			storage = st
+		}
+		v := telegram.VerifC30NewClient(primary, false, storage)
+		var acts, results []string
+		var all []notif
+		var running []*struct {
+			a   *agent
+			idx int
+		}
+		var runAgent func(a *agent)
+		fire := func(get func(a *agent) *[]*agent) func() {
+			return func() {
+				top := running[len(running)-1]
+				list := get(top.a)
+				todo := *list
+				*list = nil
+				for _, b := range todo {
+					runAgent(b)
+				}
+				// the fault switches belong to the agent whose storage call this is
+				st.loadFail, st.saveFail = top.a.n.fault == 'l', top.a.n.fault == 's'
+			}
+		}
+		st.onLoad = fire(func(a *agent) *[]*agent { return &a.atLoad })
+		st.onStore = fire(func(a *agent) *[]*agent { return &a.atStore })
+		st.afterOp = func() { // the load (+ data computation) / the save of the running agent has happened
+			top := running[len(running)-1]
+			acts = append(acts, fmt.Sprintf("A:%d", top.idx))
+		}
+		migBetween := false
+		runAgent = func(a *agent) {
+			idx := len(all)
+			all = append(all, a.n)
+			results = append(results, "?")
+			acts = append(acts, "S:"+a.n.wire())
+			first := 3 // track, test, store happen before the agent's first storage call
+			if a.n.cdn || a.n.mig {
+				first = 1
+			}
+			for k := 0; k < first; k++ {
+				acts = append(acts, fmt.Sprintf("A:%d", idx))
+			}
+			if a.n.mig && len(running) > 0 {
+				migBetween = true
+			}
+			running = append(running, &struct {
+				a   *agent
+				idx int
+			}{a, idx})
+			var err error
+			func() {
+				defer func() {
+					if p := recover(); p != nil {
+						err = fmt.Errorf("panic: %v", p)
+					}
+				}()
+				err = invoke(v, a.n)
+			}()
+			running = running[:len(running)-1]
+			st.loadFail, st.saveFail = false, false
+			results[idx] = resClass(err)
+			acts = append(acts, fmt.Sprintf("A:%d", idx), fmt.Sprintf("A:%d", idx)) // drain (no-ops when finished)
+		}
+		for _, a := range tops {
+			runAgent(a)
+		}
+		st.onLoad, st.onStore, st.afterOp = nil, nil, nil
+		state := showClient(v, st)
+		var now *session.Data
+		if hasStorage {
+			now = st.stored()
+		}
+		v.VerifC30Close()
+		hs, is := "0", "-"
+		if hasStorage {
+			hs = "1"
+		}
+		if init != nil {
+			is = wireStored(init)
+		}
+		line := fmt.Sprintf("script %s %d %s %s", hs, primary, is, strings.Join(acts, " "))
+		c.Eval(line, len(all) >= 2)
+		c.Count(fmt.Sprintf("script.agents=%d", len(all)))
+		if migBetween {
+			c.Count("script.migration-inside-a-save")
+		}
+		// monitor: the stored session is one whole regular notification (or the initial content)
+		if now != nil && !(init != nil && showStored(init) == showStored(now)) {
+			ok := false
+			for _, x := range all {
+				e := x.eff()
+				if !x.cdn && !x.mig && now.DC == x.dc && bytes.Equal(now.AuthKey, e.Value[:]) && bytes.Equal(now.AuthKeyID, e.ID[:]) && now.Salt == x.salt {
+					ok = true
+				}
+			}
+			if !ok {
+				c.Fail("stored-not-one-confirmed-session", line, "after this interleaving the storage holds "+showStored(now)+", which is not the DC+key+salt of any single notification")
+			}
+		}
+		lines = append(lines, line)
+		impls = append(impls, strings.Join(results, ",")+" "+state)
+	}
+	outs, err := c.Drv.Batch(lines)
+	if err != nil {
+		return err
+	}
+	for i, o := range outs {
+		if c.Compare(lines[i], impls[i], o) {
+			c.Res.TracesValidated++
+		}
+	}
+	return nil
 }
 
 // runConcurrent lets 2..3 notifications race through the real handler from separate goroutines and asks
@@ -686,6 +967,9 @@ func runConcurrent(c *hc.Ctx) error {
 			if r.Chance(30) {
 				x.perm = genKey(r)
 			}
+			if j > 0 && r.Chance(20) { // a migration racing with the notifications
+				x = notif{mig: true, dc: hc.Pick(r, 1, 3, 4, 5), fault: 'n'}
+			}
 			hist = append(hist, x)
 		}
 		v := telegram.VerifC30NewClient(primary, false, st)
@@ -703,14 +987,7 @@ func runConcurrent(c *hc.Ctx) error {
 				}()
 				x := hist[j]
 				<-start
-				var err error
-				cfg := tg.Config{ThisDC: x.dc}
-				ms := mtproto.Session{Key: x.key, Salt: x.salt, PermKey: x.perm}
-				if x.cdn {
-					err = v.VerifC30OnCDNSession(cfg, ms)
-				} else {
-					err = v.VerifC30OnSession(cfg, ms)
-				}
+				err := invoke(v, x)
 				if err == nil {
 					results[j] = "ok"
 				} else {
@@ -743,10 +1020,10 @@ func runConcurrent(c *hc.Ctx) error {
 		storedBy, sessBy := -1, -1
 		for j, x := range hist {
 			e := x.eff()
-			if now != nil && !x.cdn && now.DC == x.dc && bytes.Equal(now.AuthKey, e.Value[:]) && bytes.Equal(now.AuthKeyID, e.ID[:]) && now.Salt == x.salt {
+			if now != nil && !x.cdn && !x.mig && now.DC == x.dc && bytes.Equal(now.AuthKey, e.Value[:]) && bytes.Equal(now.AuthKeyID, e.ID[:]) && now.Salt == x.salt {
 				storedBy = j
 			}
-			if !x.cdn && sess.DC == x.dc && sess.AuthKey == e && sess.Salt == x.salt {
+			if !x.cdn && !x.mig && sess.DC == x.dc && sess.AuthKey == e && sess.Salt == x.salt {
 				sessBy = j
 			}
 		}
